@@ -142,18 +142,24 @@ static unsigned char *unhex(const char *h, size_t *n) {
     return o;
 }
 
+static htp_cfg_t *make_cfg(const char *spec) {
+    htp_cfg_t *c = cfg_from_spec(spec);
+    if (!c) return NULL;
+    htp_config_register_request_start(c, cb_request_start); htp_config_register_request_line(c, cb_request_line);
+    htp_config_register_request_headers(c, cb_request_headers); htp_config_register_request_trailer(c, cb_request_trailer);
+    htp_config_register_request_body_data(c, cb_req_body); htp_config_register_request_complete(c, cb_request_complete);
+    htp_config_register_response_start(c, cb_response_start); htp_config_register_response_line(c, cb_response_line);
+    htp_config_register_response_headers(c, cb_response_headers); htp_config_register_response_trailer(c, cb_response_trailer);
+    htp_config_register_response_body_data(c, cb_res_body); htp_config_register_response_complete(c, cb_response_complete);
+    htp_config_register_transaction_complete(c, cb_transaction_complete); htp_config_register_log(c, cb_log);
+    return c;
+}
+
 int main(int argc, char **argv) {
     if (argc < 5) { fprintf(stderr, "usage: thr cfgspec streams iterations seed\n"); return 2; }
-    CFG = cfg_from_spec(argv[1]);
+    CFG = make_cfg(argv[1]);
     if (!CFG) { printf("bad-cfg\n"); return 2; }
     ITER = atoi(argv[3]); SEED = (unsigned) strtoul(argv[4], NULL, 10);
-    htp_config_register_request_start(CFG, cb_request_start); htp_config_register_request_line(CFG, cb_request_line);
-    htp_config_register_request_headers(CFG, cb_request_headers); htp_config_register_request_trailer(CFG, cb_request_trailer);
-    htp_config_register_request_body_data(CFG, cb_req_body); htp_config_register_request_complete(CFG, cb_request_complete);
-    htp_config_register_response_start(CFG, cb_response_start); htp_config_register_response_line(CFG, cb_response_line);
-    htp_config_register_response_headers(CFG, cb_response_headers); htp_config_register_response_trailer(CFG, cb_response_trailer);
-    htp_config_register_response_body_data(CFG, cb_res_body); htp_config_register_response_complete(CFG, cb_response_complete);
-    htp_config_register_transaction_complete(CFG, cb_transaction_complete); htp_config_register_log(CFG, cb_log);
     FILE *f = fopen(argv[2], "r");
     if (!f) { printf("no-streams-file\n"); return 2; }
     static char line[1 << 20];
@@ -164,7 +170,15 @@ int main(int argc, char **argv) {
         NS++;
     }
     fclose(f);
-    for (int k = 0; k < NS; k++) parse_one(k, &SOLO[k], SEED + 7919u * (unsigned) k);
+    /* "alone" means alone: every solo parse gets a configuration of its own, built from the same specification, so that anything one
+     * parser leaves behind in the shared configuration cannot already be in its reference record */
+    htp_cfg_t *shared = CFG;
+    for (int k = 0; k < NS; k++) {
+        CFG = make_cfg(argv[1]);
+        parse_one(k, &SOLO[k], SEED + 7919u * (unsigned) k);
+        htp_config_destroy(CFG);
+    }
+    CFG = shared;
     pthread_t th[MAXS];
     pthread_barrier_init(&BAR, NULL, (unsigned) NS);
     for (int k = 0; k < NS; k++) pthread_create(&th[k], NULL, worker, (void *) (long) k);
